@@ -154,4 +154,14 @@ def Zones.closest (z : Zones) (origin : Int) : Rat × Rat :=
   | none => (0, -1)
   | some (c, p) => (p, c)
 
+/-- one operation on an interval set -/
+inductive Op where
+  | exclude (a b : Int)
+  | weighted (e : Excl)
+  deriving Repr
+
+def Zones.step (z : Zones) : Op → Zones
+  | .exclude a b => z.remove a b
+  | .weighted e => z.insert e
+
 end GrVerif.Zones
